@@ -480,7 +480,10 @@ def r03_4(ctx: Ctx, taint: Taint, closure, sinks, link_sinks, roots) -> None:
     ecfg = cfg_of(ex0.node)
     wnodes = [q.node_for(ex0, c) for c in q.calls(ex0) if "py7zr:Worker.extract" in shared.targets_of(ctx, ex0, c)]
     post_sinks = [s for s in sinks if s[0] is ex0 and any(ecfg.reaches(w, q.node_for(ex0, s[1])) for w in wnodes)]
-    work = [(f, [s for s in sinks if s[0] is f]) for f in writer_funcs.values()] + ([(ex0, post_sinks)] if post_sinks else [])
+    # sinks of the pre-pass (directories of the members are created before the worker runs): links left behind by an EARLIER extraction into the
+    # same destination may lead a member path outside
+    pre_sinks = [s for s in sinks if s[0] is ex0 and s not in post_sinks and q.enclosing_loops(ex0, s[1])]
+    work = [(f, [s for s in sinks if s[0] is f]) for f in writer_funcs.values()] + ([(ex0, post_sinks + pre_sinks)] if post_sinks or pre_sinks else [])
     for f, fsinks in work:
         fq = f.qname
         cfg = cfg_of(f.node)
@@ -555,12 +558,25 @@ def parallel_guard(ctx: Ctx, rule: str) -> None:
         if par is None:
             ctx.fail(rule, ex, c, "Worker.extract called without a parallel argument")
             continue
-        exprs = q.sources_of(ex, par, depth=3)
-        mentions_links = any(isinstance(n, ast.Attribute) and n.attr in ("is_symlink", "is_junction") for e in exprs for n in ast.walk(e))
         const_false = isinstance(par, ast.Constant) and par.value is False
-        ctx.check(mentions_links or const_false, rule, ex, c, "parallel extraction disabled for archives with link members",
-                  "extraction may run folders in parallel although the archive contains link members: the check-then-create of one "
-                  "worker races with link creation by another (the result depends on the schedule)", construct=f"parallel={norm(par)}")
+        # the flag(s) that say "the archive holds a link member": a name whose value is true whenever SOME member is a symbolic link
+        # (any(...) over all members of `m.is_symlink`, alone or in a disjunction; no filter), or such an expression used directly
+        def says_links(e: ast.AST) -> bool:
+            if isinstance(e, ast.Name):
+                vals = q.assigned_values(ex, e.id)
+                return bool(vals) and all(says_links(v) for v in vals)
+            if isinstance(e, ast.Call) and dotted(e.func) == "any" and e.args:
+                comp = e.args[0]
+                if isinstance(comp, (ast.ListComp, ast.GeneratorExp, ast.SetComp)) and len(comp.generators) == 1 and not comp.generators[0].ifs \
+                        and norm(comp.generators[0].iter) == "self.files" and isinstance(comp.generators[0].target, ast.Name):
+                    v = comp.generators[0].target.id
+                    return shared.implied_by_all(comp.elt, {f"{v}.is_symlink"})
+            return False
+        off = const_false or shared.off_when(ex, par, says_links)
+        ctx.check(off, rule, ex, c, "parallel extraction disabled for archives with link members",
+                  "extraction may run folders in parallel although the archive contains link members (the `parallel` argument is not switched off by a flag that is true "
+                  "whenever some member is a symbolic link - a flag that is merely mentioned, negated the wrong way round, or true only for members that are link AND junction, "
+                  "does not do): the check-then-create of one worker races with link creation by another (the result depends on the schedule)", construct=f"parallel={norm(par)}")
 
 
 def r03_6(ctx: Ctx, roots) -> None:
